@@ -8,6 +8,7 @@ REPO = os.environ.get("VERIF_REPO", "/repo")
 LEAN = os.path.join(VERIF, "lean")
 HARNESS = os.path.join(VERIF, "harness")
 BINDIR = os.path.join(HARNESS, "bin")
+DRIVER_ROOTS = {}
 ALLOWED_AXIOMS = {"propext", "Classical.choice", "Quot.sound"}
 
 import registry
@@ -140,36 +141,60 @@ def audit(prop, log):
 FORBIDDEN = re.compile(r"\b(sorry|admit|native_decide|bv_decide|implemented_by|unsafe)\b|^axiom |maxHeartbeats 0")
 
 
-def grep_forbidden():
-    """source scan for sorry/admit/axiom/native_decide/... outside comments."""
+def import_closure(roots):
+    """Lean source files (relative to lean/) reachable from the given modules through `import DiskfsModel.*` / `import Driver.*`."""
+    seen, todo = set(), list(roots)
+    while todo:
+        m = todo.pop()
+        if m in seen:
+            continue
+        path = os.path.join(LEAN, *m.split(".")) + ".lean"
+        if not os.path.exists(path):
+            continue
+        seen.add(m)
+        for line in open(path, errors="replace"):
+            mm = re.match(r"\s*import\s+((?:DiskfsModel|Driver)\.[\w.]+)", line)
+            if mm:
+                todo.append(mm.group(1))
+    return sorted(seen)
+
+
+def driver_roots(drivers):
+    """root modules of the given lean_exe targets, read from lakefile.toml"""
+    txt = open(os.path.join(LEAN, "lakefile.toml")).read()
+    roots = []
+    for m in re.finditer(r'\[\[lean_exe\]\]\s*name\s*=\s*"([^"]+)"\s*root\s*=\s*"([^"]+)"', txt):
+        if m.group(1) in drivers:
+            roots.append(m.group(2))
+    return roots
+
+
+def grep_forbidden(roots):
+    """source scan for sorry/admit/axiom/native_decide/... outside comments, over the import closure of this property."""
     hits = []
-    for root, _, files in os.walk(os.path.join(LEAN, "DiskfsModel")):
-        for fn in files:
-            if not fn.endswith(".lean"):
-                continue
-            p = os.path.join(root, fn)
-            if os.sep + "Audit" + os.sep in p and fn == "Common.lean":
-                continue
-            incomment = 0
-            for i, line in enumerate(open(p, errors="replace"), 1):
-                s = line
-                # strip block comments (coarse) and line comments
-                if incomment:
-                    if "-/" in s:
-                        incomment = 0
-                        s = s.split("-/", 1)[1]
-                    else:
-                        continue
-                if "/-" in s:
-                    head, rest = s.split("/-", 1)
-                    if "-/" in rest:
-                        s = head + rest.split("-/", 1)[1]
-                    else:
-                        incomment = 1
-                        s = head
-                s = s.split("--", 1)[0]
-                if FORBIDDEN.search(s):
-                    hits.append(f"{os.path.relpath(p, LEAN)}:{i}: {line.strip()}")
+    for mod in import_closure(roots):
+        if mod == "DiskfsModel.Audit.Common":
+            continue
+        p = os.path.join(LEAN, *mod.split(".")) + ".lean"
+        incomment = 0
+        for i, line in enumerate(open(p, errors="replace"), 1):
+            s = line
+            if incomment:
+                if "-/" in s:
+                    incomment = 0
+                    s = s.split("-/", 1)[1]
+                else:
+                    continue
+            if "/-" in s:
+                head, rest = s.split("/-", 1)
+                if "-/" in rest:
+                    s = head + rest.split("-/", 1)[1]
+                else:
+                    incomment = 1
+                    s = head
+            s = s.split("--", 1)[0]
+            if FORBIDDEN.search(s):
+                hits.append(f"{os.path.relpath(p, LEAN)}:{i}: {line.strip()}")
     return hits
 
 
@@ -274,7 +299,7 @@ def check_property(prop, tier, seed, only=None):
                 aok, thms, bad, aout = audit(prop, log)
                 if not aok:
                     problems.append(("audit", f"axiom audit failed: bad={bad} out={aout[-500:]}"))
-            hits = grep_forbidden()
+            hits = grep_forbidden([f"DiskfsModel.Props.{prop}", f"DiskfsModel.Audit.{prop}"] + driver_roots(drivers))
             if hits:
                 problems.append(("forbidden", "forbidden construct in Lean sources: " + "; ".join(hits[:5])))
             # private copies of the binaries so concurrent checks cannot disturb this run
